@@ -328,6 +328,18 @@ def _register():
             RECORD.append(('vrec4', self.match, current_rule))
             return self.match.startswith('t')
 
+    class Rec4n(_checks.Check):
+        # the fourth positional parameter may be called anything
+        def __call__(self, target, creds, enforcer, rule_name=None):
+            RECORD.append(('vrec4n', self.match, rule_name))
+            return self.match.startswith('t')
+
+    class Rec4r(_checks.Check):
+        # ... and need not have a default
+        def __call__(self, target, creds, enforcer, policy):
+            RECORD.append(('vrec4r', self.match, policy))
+            return self.match.startswith('t')
+
     class Rec3(_checks.Check):
         def __call__(self, target, creds, enforcer):
             RECORD.append(('vrec3', self.match, None))
@@ -356,6 +368,8 @@ def _register():
 
     _checks.register('vup', Up)
     _checks.register('vrec4', Rec4)
+    _checks.register('vrec4n', Rec4n)
+    _checks.register('vrec4r', Rec4r)
     _checks.register('vrec3', Rec3)
     _checks.register('vrec43', Rec43)
     _checks.register('vrec34', Rec34)
@@ -422,7 +436,8 @@ def run_current_rule(acc):
     enf = world.bare_enforcer()
     run_reentrant(acc, enf)
     # parents are evaluated before the subclasses, and once more after them
-    for kind in ('vrec4', 'vrec3', 'vrec43', 'vrec34', 'vrec4', 'vrec3'):
+    for kind in ('vrec4', 'vrec3', 'vrec43', 'vrec34', 'vrec4', 'vrec3',
+                 'vrec4n', 'vrec4r'):
         for body in BODIES4:
             for val in ('t', 'f'):
                 leaf = '%s:%s' % (kind, val)
@@ -455,7 +470,8 @@ def run_current_rule(acc):
                                       'custom check was never called', case,
                                       'called', 'not called', 'S4')
                     for k, m, cur in RECORD:
-                        if k in ('vrec4', 'vrec43') and cur != name:
+                        if k in ('vrec4', 'vrec43', 'vrec4n', 'vrec4r') and \
+                                cur != name:
                             acc.violation(
                                 'S4|current_rule|depth=%d' % min(depth, 1),
                                 'nested check was told current_rule=%r while '
